@@ -61,6 +61,8 @@ LRUBYTES = "clematis/engine/util/lru_bytes.py:LRUBytes."
 
 R.contract(
     LRUBYTES + "put", "C15",
+    # defensive code that is dead under the representation invariant (key in map => key in queue; popped key is mapped)
+    unreachable_ok=["pass", "continue"],
     types={"self": "LRUBytes", "key": "Un[K]", "value": "Un[V]", "cost_bytes": "int"},
     requires=[("wf", "wf_lrubytes(self)")],
     ensures=[
@@ -105,6 +107,7 @@ R.contract(
 
 R.contract(
     LRUBYTES + "get", "C15",
+    unreachable_ok=["pass"],   # `except ValueError: pass` is dead under the invariant (key in map => key in queue)
     types={"self": "LRUBytes", "key": "Un[K]"},
     requires=[("wf", "wf_lrubytes(self)")],
     setup=["lemma_pigeonhole(self._q, self._map, key)"],
@@ -222,6 +225,7 @@ R.contract(
 
 R.contract(
     DETLRU + "pop_lru", "C15",
+    unreachable_ok=["return None"],   # only the `if k not in self._map: return None` arm is dead under the invariant
     types={"self": "DetLRU"},
     requires=[("wf", "wf_detlru(self)")],
     ensures=[
